@@ -11,7 +11,8 @@ import (
 	"time"
 
 	"github.com/caddyserver/caddy/v2"
-	_ "github.com/caddyserver/caddy/v2/modules/caddyhttp/proxyprotocol"
+	"github.com/caddyserver/caddy/v2/caddyconfig/caddyfile"
+	"github.com/caddyserver/caddy/v2/modules/caddyhttp/proxyprotocol"
 
 	"verif/harness/internal/core"
 )
@@ -19,7 +20,7 @@ import (
 // PROXY protocol listener wrapper (modules/caddyhttp/proxyprotocol): it decides what RemoteAddr IS
 // before any HTTP code runs — a PROXY header accepted from a peer outside `allow` is a spoofed client.
 //
-//	pp <allow> <deny> <fallback> <network> <peer> <claim> <tbl>
+//	pp <allow> <deny> <fallback> <network> <peer> <claim> <tbl> <via>
 //
 //	allow, deny  . | expr,expr,…      ranges (the wrapper accepts CIDRs only: netip.ParsePrefix)
 //	fallback     - | hex              fallback_policy as written in JSON (- = not written)
@@ -28,6 +29,8 @@ import (
 //	claim        - | hex              - = the peer sends no PROXY header; else the source "ip:port" a PROXY v1
 //	                                  header of the peer claims
 //	tbl          netip's answers for the peer string (allow bits, deny bits), as in `req`
+//	via          j | c                the wrapper is configured from JSON | from a Caddyfile `proxy_protocol { … }`
+//	                                  block (UnmarshalCaddyfile); both must configure the same wrapper
 //
 // The real module is loaded from JSON (caddy.Context.LoadModuleByID → UnmarshalJSON, Provision), its
 // WrapListener wraps an in-memory listener whose only connection has the given remote address and bytes.
@@ -108,7 +111,7 @@ func allCIDR(xs []string) (slashless bool, invalid bool) {
 }
 
 func (p *prop) runPP(f []string) core.Outcome {
-	if len(f) != 8 {
+	if len(f) != 9 || (f[8] != "j" && f[8] != "c") {
 		return core.Outcome{Impl: "bad-op"}
 	}
 	allow, ok1 := ppRanges(f[1])
@@ -154,7 +157,29 @@ func (p *prop) runPP(f []string) core.Outcome {
 	raw, _ := json.Marshal(cfg)
 	ctx, cancel := caddy.NewContext(caddy.Context{Context: context.Background()})
 	defer cancel()
-	mod, err := ctx.LoadModuleByID("caddy.listeners.proxy_protocol", raw)
+	var mod any
+	var err error
+	if f[8] == "j" {
+		mod, err = ctx.LoadModuleByID("caddy.listeners.proxy_protocol", raw)
+	} else {
+		var sb strings.Builder
+		sb.WriteString("proxy_protocol {\n")
+		if len(allow) > 0 {
+			sb.WriteString("\tallow " + strings.Join(allow, " ") + "\n")
+		}
+		for _, d := range deny { // one line per range: the lines must accumulate
+			sb.WriteString("\tdeny " + d + "\n")
+		}
+		if fallback != "" {
+			sb.WriteString("\tfallback_policy " + fallback + "\n")
+		}
+		sb.WriteString("}\n")
+		w := new(proxyprotocol.ListenerWrapper)
+		if err = w.UnmarshalCaddyfile(caddyfile.NewTestDispenser(sb.String())); err == nil {
+			err = w.Provision(ctx)
+		}
+		mod = w
+	}
 	if err != nil {
 		out.Impl = "provision-error"
 		out.Tags = append(out.Tags, "pp:provision-error")
@@ -307,6 +332,10 @@ func ppLine(allow, deny []string, fb, network, peer, claim string) string {
 			tbl = ppTable(allow, deny, peer)
 		}
 	}
-	return fmt.Sprintf("pp %s %s %s %s %s %s %s", listField(allow, false, false), listField(deny, false, false), fb,
-		core.Hex(network), core.Hex(peer), claim, tbl)
+	via := "j"
+	if len(tbl)%3 == 0 { // deterministic in the case itself
+		via = "c"
+	}
+	return fmt.Sprintf("pp %s %s %s %s %s %s %s %s", listField(allow, false, false), listField(deny, false, false), fb,
+		core.Hex(network), core.Hex(peer), claim, tbl, via)
 }
